@@ -19,7 +19,7 @@ RULE = ("E1: complete small groups - 8 prime-order curves over primes <= 61 (a =
         "('muladd', curve, i) every pair x scalars {0,1,2,n-1,n,n+1}^2; ('affine', curve, i) the affine Point class likewise. ('inv', p) inverse_mod "
         "for every a mod every prime <= 257; ('sqrt', p) square_root_mod_prime for every residue / non-residue mod every prime <= 307. Standard "
         "curves ('std', curve, scalar class): k*G vs OpenSSL and vs the textbook reference for k in {0,1,2,n-1,n,n+1,2^k,2^k-1,seed up to 2n}, k*P "
-        "on a non-generator, ('ecdh', curve, i) both directions equal and equal OpenSSL pkeyutl -derive; ('invalid', curve, kind) off-curve, "
+        "on a non-generator, ('ecdh', curve, i) both directions equal and equal OpenSSL pkeyutl -derive, incl. peers found by deterministic search whose shared x or own coordinates have leading zero bytes; ('invalid', curve, kind) off-curve, "
         "out-of-range, infinity and foreign-curve points must be rejected by every loader. Distinct = case tuples; group operations counted in 'measured'.")
 ASSUMPTIONS = [
     "textbook affine group law (vf/ref/ec.py) is the oracle for small groups; OpenSSL 3 CLI is the oracle for the 17 standard curves",
@@ -106,6 +106,8 @@ def cases(ctx):
             yield ("std", ci, si)
         for i in range(3 if ctx.quick else 8):
             yield ("ecdh", ci, i)
+        for cls in ("shared-x-leading-00", "shared-x-leading-0000", "peer-x-leading-00", "peer-y-leading-00"):
+            yield ("ecdh", ci, cls)
         for kind in INVALID:
             yield ("invalid", ci, kind)
 
@@ -302,8 +304,25 @@ def run_case(ctx, case):
         cv = ref_curve(cur)
         n = cv.n
         size = cur.verifying_key_length // 2
-        d1 = [1, n - 1, 2][i] if i < 3 else 1 + ctx.symint("c17-d1-%s-%d" % (cur.name, i), n - 1)
-        d2 = 1 + ctx.symint("c17-d2-%s-%d" % (cur.name, i), n - 1)
+        if isinstance(i, str):
+            # directed search: peer scalar d2 such that the shared x / the peer's coordinates have leading zero bytes
+            d1 = 1 + ctx.symint("c17-d1-%s-cls" % cur.name, n - 1)
+            base = cv.mul(d1, cv.g) if i.startswith("shared") else cv.g
+            d2 = 2 + ctx.symint("c17-d2-%s-cls" % cur.name, 1 << 40)
+            P = cv.mul(d2, base)
+            found = False
+            for _ in range(400000):
+                v = P[1] if i == "peer-y-leading-00" else P[0]
+                if v >> (8 * size - (16 if i.endswith("0000") else 8)) == 0:
+                    found = True
+                    break
+                P = cv.add(P, base)
+                d2 += 1
+            if not found:
+                return Outcome("no-scalar-of-this-class-found", False)
+        else:
+            d1 = [1, n - 1, 2][i] if i < 3 else 1 + ctx.symint("c17-d1-%s-%d" % (cur.name, i), n - 1)
+            d2 = 1 + ctx.symint("c17-d2-%s-%d" % (cur.name, i), n - 1)
         k1 = SigningKey.from_secret_exponent(d1, curve=cur)
         k2 = SigningKey.from_secret_exponent(d2, curve=cur)
         a = ECDH(curve=cur, private_key=k1, public_key=k2.verifying_key)
